@@ -146,7 +146,10 @@ def draw_case(rng, tier, info):
         s = rng.randrange(len(slots))
         d = rng.choice([None, None, 0, 1])
         coder = "custom" if (slots[s].get("custom") and rng.random() < 0.25) else None
-        case["events"].append({"slot": s, "dialect": d, "coder": coder})
+        ev = {"slot": s, "dialect": d, "coder": coder}
+        if slots[s]["name"] == "to_jsonb" and rng.random() < 0.4:
+            ev["orjson_options"] = True   # a caller-supplied encoder keyword (OPT_INDENT_2 | OPT_SORT_KEYS)
+        case["events"].append(ev)
     if resolve_at == n:
         case["events"].append("resolve")
     case["seed"] = rng.randrange(1 << 30)
@@ -250,14 +253,14 @@ class World:
             kw["later"] = self.later(x=3, d=datetime.date(2017, 7, 7))
         return self.cls(**kw)
 
-    def call(self, slot_idx, dialect, coder, seed):
+    def call(self, slot_idx, dialect, coder, seed, extra=None):
         """-> ["ok", canon] | ["unresolved"] | ["typeerror"] | ["diverged"] | ["error", type]"""
         from mashumaro.exceptions import UnresolvedTypeReferenceError
 
         if self.create_error:
             return ["define-raises", self.create_error]
         slot = self.slots[slot_idx]
-        kw = {}
+        kw = dict(extra or {})
         if dialect is not None:
             kw["dialect"] = dialect
         try:
@@ -357,7 +360,12 @@ def run_case(ctx, case, cid, info, model=None):
                 wants.append(["skipped"])
                 ctx.bump("skipped:no-input-document")
                 continue
-            got = real.call(e["slot"], d, e["coder"], case["seed"])
+            extra = None
+            if e.get("orjson_options"):
+                import orjson
+
+                extra = {"orjson_options": orjson.OPT_INDENT_2 | orjson.OPT_SORT_KEYS}
+            got = real.call(e["slot"], d, e["coder"], case["seed"], extra)
             if real.create_error:
                 want = ["define-raises", real.create_error]
             elif real.postponed and real.later is None:
@@ -365,7 +373,7 @@ def run_case(ctx, case, cid, info, model=None):
                 # error — or a TypeError for a keyword the signature does not have
                 want = ["typeerror"] if (d is not None and not case["support"] and not slots[e["slot"]]["unpack"]) else ["unresolved"]
             else:
-                want = twin.call(e["slot"], d, e["coder"], case["seed"])
+                want = twin.call(e["slot"], d, e["coder"], case["seed"], extra)
             if e["slot"] not in first_seen:
                 first_seen.add(e["slot"])
                 if case["mode"] != "eager":
@@ -401,7 +409,12 @@ def run_case(ctx, case, cid, info, model=None):
                         if real.postponed and real.later is None:
                             pred = ["model-ran-before-resolution"]
                         else:
-                            pred = twin.call(e["slot"], md_obj, mc == "custom", case["seed"])
+                            ex = None
+                            if e.get("orjson_options"):
+                                import orjson
+
+                                ex = {"orjson_options": orjson.OPT_INDENT_2 | orjson.OPT_SORT_KEYS}
+                            pred = twin.call(e["slot"], md_obj, mc == "custom", case["seed"], ex)
                     else:
                         pred = [o]
                 per_slot_idx[e["slot"]] += 1
